@@ -72,6 +72,18 @@ func c04Combos() []map[string]string {
 			}
 		}
 	}
+	// "different from current" has more than one representative: a negative number, the largest one, the predecessor -
+	// one parameter at a time and next to a condition that holds
+	for _, k := range []string{"ifGenerationMatch", "ifGenerationNotMatch", "ifMetagenerationMatch", "ifMetagenerationNotMatch"} {
+		for _, v := range []string{"neg", "huge", "below"} {
+			out = append(out, map[string]string{k: v})
+			if k != "ifGenerationMatch" {
+				out = append(out, map[string]string{k: v, "ifGenerationMatch": "cur"})
+			} else {
+				out = append(out, map[string]string{k: v, "ifMetagenerationMatch": "cur"})
+			}
+		}
+	}
 	return out
 }
 
